@@ -435,7 +435,7 @@ static size_t ZSTD_seekable_loadSeekTable(ZSTD_seekable* zs)
             for (; idx < numFrames; idx++)
             ZSTD_VERIF_LOOP(
                 __CPROVER_assigns(idx, pos, cOffset, dOffset, remaining,
-                                  __CPROVER_object_whole(entries), __CPROVER_object_whole(zs->inBuff))
+                                  __CPROVER_object_whole(entries), __CPROVER_object_whole(zs->inBuff), ZSTD_VERIF_GHOST_FRAME)
                 __CPROVER_loop_invariant(idx <= numFrames && pos <= SEEKABLE_BUFF_SIZE
                     && (idx > 0 || (cOffset == 0 && dOffset == 0))
                     && (idx == 0 || (entries[0].cOffset == 0 && entries[0].dOffset == 0)))
